@@ -138,4 +138,10 @@ CLAIMS = {
         "note": "domain as given by the property: self-contained sequences with 16-colour codes",
         "technique": RM + " (independent roff reader)",
     },
+    "C04": {
+        "text": "One hostile workload over all input-consuming entry points, repeated per instrumentation lane: release (monitor validates every returned piece), debug assertions + overflow checks, AddressSanitizer, Miri (sharded over 16 interpreters) and valgrind memcheck (thorough); every sanitizer lane first proves it is live on a deliberate canary bug.  Exploration: held on the executions observed, per lane.",
+        "design_ref": "7 C04, 5",
+        "note": "sanitizers only see reached code; Miri cannot cross FFI (none is involved); TSan is used by C19, not here",
+        "technique": "sanitizers and UB interpreter: debug assertions/overflow checks, AddressSanitizer, Miri, valgrind memcheck over a hostile generated workload with canaries",
+    },
 }
